@@ -26,12 +26,19 @@
                                                   (every smoother, the ensemble included)
    regression witnesses                        -> C13_segregating_old_violates / _new_separates, C13_nplate_old_violates / _new_keeps
 
+   Regression (not a clause): S7-C13 -> positive: C13_combo_filter (membership by treatment ID = (name, dose) pair, C01's encoding);
+                              C13_S7_filter_by_name_counterexample (dose-blind filter keeps A@10 although only A@1 occurs in a combination)
+   Regression (not a clause): S6-C13 -> positive: C13_optimal_size (the chosen size maximises size x #{plates >= size} over ALL sizes);
+                              C13_S6_optimal_distinct_counterexample (retained count taken from the position among the DISTINCT sizes:
+                              sizes 2,2,2,3 -> chooses 3, which retains 3 experiments instead of 8)
+
    harness-only: numpy's generator laws (`permutation`, `choice`, `heappop` contracts checked on the recorded log; which of several
    equally frequent anchors `argsort` returns), numpy's fixed-width truncation of "unobserved_plate" in a `<U13` array (modelled as
    observed), container fidelity of `np.unique` / `array_split` / boolean masks, aliasing of `Plate.merge` with the caller's screen.
 -/
 import Batchie.Lemmas.PrepOps
 import Batchie.Lemmas.PrepExamples
+import Batchie.Lemmas.PrepRegress
 
 namespace Batchie.Props.C13
 open Batchie.Proto Batchie.Screen Batchie.Prep
@@ -129,6 +136,24 @@ theorem C13_combo_filter (s t : Screen) (h : comboFilter s = .ok t) :
         ∀ x ∈ s.tids[i], x ≠ -1 → ∃ row ∈ s.tids, (∀ y ∈ row, y ≠ -1) ∧ x ∈ row) :=
   ⟨comboFilter_rows h, length_comboFilterSel _, fun i hi => comboFilterSel_getElem s.tids i hi⟩
 
+/-- Regression S7-C13 (combination filter by treatment NAME).  Witness: A@1 + B@1 is a full combination, A@10 occurs only alone.
+    The faithful filter drops the A@10 row -- as `C13_combo_filter` demands: its treatment id 1 occurs in no row without control --
+    while the dose-blind definition keeps it. -/
+theorem C13_S7_filter_by_name_counterexample :
+    ∃ s, mk? (rawOfRows [] 2 wDoseRows none none) = .ok s ∧ s.tids = [[0, 2], [1, -1]] ∧
+      comboFilterSel s.tids = [true, false] ∧ comboFilterSelByName s.tnames s.tids = [true, true] ∧
+      ¬ (∀ x ∈ ([1, -1] : List Int), x ≠ -1 → ∃ row ∈ s.tids, (∀ y ∈ row, y ≠ -1) ∧ x ∈ row) := by
+  have w := filter_by_name_witness
+  cases hm : mk? (rawOfRows [] 2 wDoseRows none none) with
+  | error e => rw [hm] at w; simp [Except.toOption] at w
+  | ok s =>
+    rw [hm] at w
+    simp only [Except.toOption, Option.map_some, Option.some.injEq, Prod.mk.injEq] at w
+    obtain ⟨w1, w2, w3⟩ := w
+    refine ⟨s, rfl, w3, w1, w2, ?_⟩
+    rw [w3]
+    decide
+
 /-! ### size smoothers -/
 
 /-- **Fixed size.** Every plate label keeps none of its experiments (the plate was smaller than the size) or exactly
@@ -147,6 +172,19 @@ theorem C13_optimal_size (c : Name) (a : Nat) (rows : List Row) (u nu : Screen) 
       (∀ p : Name, plateSize (rowsOf nu) p = if plateSize rows p < k then 0 else k) ∧
       (∀ t : Nat, retained (plateSizes rows) t ≤ retained (plateSizes rows) k) :=
   optimal_shape hu h
+
+/-- Regression S6-C13 (optimal size searched over the distinct sizes, retained-plate count = total − position among the DISTINCT
+    sizes): on plate sizes 2,2,2,3 the seeded definition chooses 3, which retains 3 experiments, although size 2 retains 8 --
+    contradicting the maximality clause of `C13_optimal_size` (`retained`, the same quantity). -/
+theorem C13_S6_optimal_distinct_counterexample :
+    optimalSizeDistinct [2, 2, 2, 3] = 3 ∧ retained [2, 2, 2, 3] 3 = 3 ∧ retained [2, 2, 2, 3] 2 = 8 ∧
+    ¬ (∀ t : Nat, retained [2, 2, 2, 3] t ≤ retained [2, 2, 2, 3] (optimalSizeDistinct [2, 2, 2, 3])) := by
+  have w := optimalSizeDistinct_witness
+  have e : ∀ t, retained [2, 2, 2, 3] t = retainedBy [2, 2, 2, 3] t := fun _ => rfl
+  refine ⟨w.1, by rw [e]; exact w.2.1, by rw [e]; exact w.2.2, fun h => ?_⟩
+  have := h 2
+  rw [w.1, e, e, w.2.1, w.2.2] at this
+  omega
 
 /-- **Per-sample minimum.** Exactly the experiments of the samples with at least `minN` distinct plates are kept
     (untouched, in order); hence no sample is left with fewer plates than configured.  Also for the ensemble, which ends
